@@ -529,10 +529,12 @@ def roundtrip_batch(ctx, drv, triangles, scratch, tag="rt", compressed=True):
         ctx.count(f"{tag}/slices={desc.get('slices')}")
         ctx.case(digest=json.dumps(cells, sort_keys=True), nontrivial=len(cells) > 0,
                  sample={"op": tag, **desc, "bytes": len(B)})
-        if not out["wf"]:
-            ctx.notes.append(f"{tag}: generated a triangle outside WF (skipped)")
+        if not out["wf"] or not out.get("coherent", True):
+            ctx.notes.append(f"{tag}: generated a triangle outside WF / not coherent (skipped)")
             ctx.count(f"{tag}/outside-wf")
             continue
+        if not out.get("pyBytesEq", True):
+            ctx.disagree("model: encodePy t = encode t on a coherent triangle (theorem instance)", case)
         if not out["selfRoundTrip"]:
             ctx.disagree("model: decode (encode t) = ok t on a WF triangle (theorem instance)", case)
         M = bytes.fromhex(out["bytes"])
@@ -609,6 +611,138 @@ def infer_table(ctx, drv, triangles, scratch):
                 ctx.disagree("inferCompress: model refuses, implementation reads", case, out, d[0])
             else:
                 ctx.fail("a file of the other flavour was read without error", case, {"read": d[1]})
+
+
+# --------------------------------------------------------------------------------------
+# "a metadata record only when the metadata changes" when == and representation come apart
+# --------------------------------------------------------------------------------------
+
+def repr_variant(rng, kw):
+    """a NEW Metadata object that Python's == identifies with Metadata(**kw) but that is represented
+    differently: details / loss_details filled in another key order, numbers of another type with the same
+    value (1 / 1.0 / True, 0.0 / -0.0), limit 0.0 / -0.0"""
+    def alt(v):
+        if rng.random() < 0.5 or v is None or isinstance(v, (str, datetime.date)):
+            return v
+        if type(v) is bool:
+            return rng.choice([int(v), float(v), v])
+        if type(v) is int:
+            opts = [v]
+            if abs(v) < 2 ** 53:
+                opts.append(float(v))
+            if v in (0, 1):
+                opts.append(bool(v))
+            if v == 0:
+                opts.append(-0.0)
+            return rng.choice(opts)
+        if type(v) is float:
+            opts = [v]
+            if v == v and abs(v) < 2 ** 53 and v == int(v):
+                opts.append(int(v))
+                if v in (0.0, 1.0):
+                    opts.append(bool(v))
+            if v == 0.0:
+                opts += [0.0, -0.0]
+            return rng.choice(opts)
+        return v
+
+    def shuffled(d):
+        items = [(k, alt(v)) for k, v in d.items()]
+        if rng.random() < 0.7:
+            rng.shuffle(items)
+        return dict(items)
+
+    new = dict(kw)
+    new["details"] = shuffled(kw["details"])
+    new["loss_details"] = shuffled(kw["loss_details"])
+    if kw["per_occurrence_limit"] == 0.0 and rng.random() < 0.5:
+        new["per_occurrence_limit"] = rng.choice([0.0, -0.0])
+    return Metadata(**new)
+
+
+def gen_repr_triangle(rng):
+    """1-3 slices; inside a slice every cell carries its own Metadata object, all == to each other, in
+    different representations (a few share one object / one representation)"""
+    kind = rng.choice(["C", "U", "I"])
+    keys = [f"k{i}" for i in range(rng.randrange(2, 6))] + rng.sample(["ключ", "é"], rng.randrange(0, 2))
+    typed = {k: rng.choice(["int", "float", "bool", "str", "date", "none", "int", "float"]) for k in keys}
+
+    def dval(kind_):
+        if kind_ == "int":
+            return rng.choice([0, 1, 2, 5, -3, 2 ** 40, 2 ** 60 + 1])
+        if kind_ == "float":
+            return rng.choice([0.0, -0.0, 1.0, 2.0, 2.5, -7.0, 1e300, float("inf")])
+        return rand_detail_value(rng, kind_)
+
+    groups = []
+    for _ in range(rng.randrange(1, 4)):
+        nd = rng.randrange(0, len(keys) + 1)
+        kw = dict(risk_basis=rng.choice(_RB), country=rng.choice(_STRS), currency=rng.choice(_STRS),
+                  reinsurance_basis=None, loss_definition=rng.choice(_STRS),
+                  per_occurrence_limit=rng.choice([None, 0.0, -0.0, 2.5, 1e6]),
+                  details={k: dval(typed[k]) for k in keys[:nd]},
+                  loss_details={k: dval(typed[k]) for k in keys[nd:] if rng.random() < 0.8})
+        st, m = xcall(Metadata, **kw)
+        if st == "ok" and all(m != g[1] for g in groups):
+            groups.append((kw, m))
+    cells = []
+    fields = ["paid", "reported"]
+    for gi, (kw, m0) in enumerate(groups):
+        shared = m0
+        for ci in range(rng.randrange(2, 6)):
+            r = rng.random()
+            md = shared if r < 0.2 else repr_variant(rng, kw)
+            if r > 0.9:
+                shared = md
+            ps = D(2000 + ci, 1, 1)
+            vals = {f: rand_cell_value(rng, rng.choice(["int", "float"])) for f in fields}
+            if kind == "I":
+                st, c = xcall(IncrementalCell, period_start=ps, period_end=D(2000 + ci, 12, 31),
+                              evaluation_date=D(2001 + ci, 6, 30), prev_evaluation_date=D(2001 + ci, 3, 31),
+                              values=vals, metadata=md)
+            else:
+                st, c = xcall(CLASSES[kind], period_start=ps, period_end=D(2000 + ci, 12, 31),
+                              evaluation_date=D(2001 + ci, 6, 30), values=vals, metadata=md)
+            if st == "ok":
+                cells.append(c)
+    return cells, {"kind": kind, "slices": len(groups), "cells": len(cells), "keys": len(keys)}
+
+
+def repr_stream(ctx, drv, scratch, n, tag="md-repr"):
+    """(a) to_binary bytes = the model's writer-as-written (`encodePy`: a record only when Python's != says
+    so, carrying the run's first representation); (b) Spec.C06.recordsOnChange on the implementation's file:
+    number of 0x10 records = number of metadata changes. Round-trip equality is NOT claimed here (the cells
+    of a run come back in the first cell's representation: accepted domain restriction)."""
+    rng = ctx.rng
+    reqs, infos = [], []
+    for _ in range(n):
+        cells, desc = gen_repr_triangle(rng)
+        rng.shuffle(cells)
+        st, tri = xcall(Triangle, cells)
+        if st != "ok" or not len(tri):
+            continue
+        wire = raw_cells(tri.cells, strict=False)
+        st, B = xcall(write_file, tri, scratch.path(".trib"))
+        if st != "ok":
+            ctx.fail("to_binary raised on a triangle inside the documented limits", {"cells": wire}, {"error": B})
+            continue
+        reqs.append({"op": "pycase", "cells": wire, "file": B.hex()})
+        infos.append((wire, B, desc))
+    for (wire, B, desc), out in zip(infos, drv.run(reqs)):
+        case = {"cells": wire}
+        ctx.case(digest="repr" + json.dumps(wire, sort_keys=True), nontrivial=True,
+                 sample={"op": tag, **desc, "metadata_changes": out["changes"], "records_in_file": out["fileRecords"]})
+        ctx.count(f"{tag}/coherent={out['coherent']}")
+        ctx.count(f"{tag}/changes={out['changes']}")
+        if not out["wf"]:
+            ctx.count(f"{tag}/outside-wf")
+            continue
+        if not out["spec"]:
+            ctx.fail("metadata records in the file != metadata changes along the cells (a record only when metadata changes)",
+                     {**case, "file": B.hex()}, {"records_in_file": out["fileRecords"], "metadata_changes": out["changes"]})
+        elif bytes.fromhex(out["bytes"]) != B:
+            ctx.disagree("to_binary bytes = Model.encodePy bytes (==-equal metadata in different representations)",
+                         case, model=out["bytes"], impl=B.hex())
 
 
 def make_triangles(ctx, n, small=False, must=()):
@@ -700,6 +834,7 @@ def correspondence(ctx):
         tris = [(Triangle([]), {"kind": "empty", "slices": 0, "cells": 0, "keys": 0})]
         tris += make_triangles(ctx, n, must=MUST)
         roundtrip_batch(ctx, drv, tris, scratch, tag="rt")
+        repr_stream(ctx, drv, scratch, 300 if ctx.thorough else 40)
         for k, n_ in sorted(LAYOUT_SEEN.items()):
             ctx.count(f"array-layout/{k}", n_)
         infer_table(ctx, drv, make_triangles(ctx, 6 if ctx.thorough else 2, small=True), scratch)
@@ -715,7 +850,9 @@ ASSUMPTIONS = [
     "WF (checked by the driver on every generated triangle): strings < 32768 UTF-8 bytes, padded pool < 32768, ints in "
     "int64, dims < 2^32, ndim < 256, payload = 8*prod(dims), years 1..9999, limit a float that is not NaN, unique keys",
     "metadata that Python's == identifies (1 == 1.0 == True, 0.0 == -0.0, same items in another insertion order) are "
-    "one slice for the library: generated triangles hold only ==-distinct or bit-identical metadata",
+    "one slice for the library: the round-trip clauses use triangles with only ==-distinct or bit-identical metadata "
+    "(`coherent`, checked by the driver); a separate stream with ==-equal metadata in different representations checks "
+    "bytes against the writer-as-written (encodePy) and the number of metadata records against the number of changes",
     "per_occurrence_limit is a float or None (an int limit is written as a double and comes back as float)",
     NAN_FREE_NOTE,
     "gzip.decompress(gzip.compress(b)) = b (library; the compression theorem takes it as a hypothesis)",
